@@ -2,6 +2,7 @@
 import os, json, time, re
 
 ROOT = '/verif'
+OUT = os.environ.get('LPV_OUT', ROOT)      # evidence/ and replays/ go here (redirected when checking a scratch copy)
 
 GLOBAL_ASSUMPTIONS = {
     'A1': 'A1: machine double arithmetic is treated as arithmetic in the reals by engine E2 (inputs finite, no NaN); rounding-level behaviour is not decided',
@@ -64,7 +65,7 @@ def finish(pid, tier, seed, goals, meta, results, ok_canary, canary_info, t0):
             else:
                 lines.append('KNOWN-FINDING: property=%s %s (witness not replayed: %s)' % (pid, k.get('what'), detail))
     violations = 0
-    rdir = os.path.join(ROOT, 'replays', pid)
+    rdir = os.path.join(OUT, 'replays', pid)
     for s in statics:
         failed.append({'id': 'static:' + safe(s), 'kind': 'static-fact', 'text': s, 'verdict': 'failed', 'backend': 'ast-scan', 'seconds': 0, 'model': None, 'engine': 'static', 'goal': ''})
     for ob in failed:
@@ -123,8 +124,8 @@ def finish(pid, tier, seed, goals, meta, results, ok_canary, canary_info, t0):
         'wall_s': round(time.time() - t0, 2),
         'violations': violations,
     }
-    os.makedirs(os.path.join(ROOT, 'evidence'), exist_ok=True)
-    json.dump(ev, open(os.path.join(ROOT, 'evidence', pid + '.json'), 'w'), indent=1, default=str)
+    os.makedirs(os.path.join(OUT, 'evidence'), exist_ok=True)
+    json.dump(ev, open(os.path.join(OUT, 'evidence', pid + '.json'), 'w'), indent=1, default=str)
     for l in lines: print(l)
     for i in infra: print('UNDECIDED property=%s %s' % (pid, i))
     print('%s: %d obligations, %d discharged, %d failed, %d undecided, %.1fs (tier %s)' % (pid, len(obligations), discharged, len(failed), len(undecided), time.time() - t0, tier))
